@@ -236,6 +236,22 @@ class C03(core.PropBase):
                     d = G.deep(doc)
                     place(rng, d, site, sym, rng.choice(["replace", "append", "tight"]))
                     yield {"kind": "env", "doc": d, "decode": True, "tag": "matrix-env"}
+        # 2b. the SAME text at several sites (in scope at some, out of scope at others): a verdict cached per
+        #     string instead of per location would mask the later ones
+        for r in range(12 if thorough else 4):
+            doc = self.rich_job(rng)
+            syms, misses = all_symbols(doc)
+            sites = [st for st in job_sites(doc) if isinstance(get_at(doc, st), str)]
+            for sym in syms + misses[:3]:
+                for _ in range(3 if thorough else 2):
+                    d = G.deep(doc)
+                    text = "{{" + sym + "}}"
+                    chosen = rng.sample(sites, min(len(sites), rng.choice([2, 3, 4])))
+                    for site in chosen:
+                        if site[-1] == "name" and "hostRequirements" in site:
+                            continue
+                        set_at(d, site, text)
+                    yield {"kind": "job", "doc": d, "decode": True, "tag": "same-text"}
         # 3. several references at once (errors must not mask one another)
         for i in range(3000 if thorough else 500):
             doc = self.rich_job(rng) if i % 3 else G.gen_job_template(rng)
